@@ -98,6 +98,9 @@ pub struct GenParams {
     /// `git diff --no-prefix`: no a/ b/ in front of the paths
     #[serde(default)]
     pub no_prefix: bool,
+    /// hunks start at line numbers of 5-7 digits (0 = sometimes, 1 = always, 2 = never)
+    #[serde(default)]
+    pub line_number_class: u8,
 }
 
 pub struct Gen<'a> {
@@ -305,7 +308,12 @@ impl<'a> Gen<'a> {
         let nh = if only.is_some() { 1 } else { self.rng.range(1, p.max_hunks.max(1)) };
         // mostly near the top of the file; sometimes far down (line numbers of 5, 6 or 7 digits
         // widen the line-number columns)
-        let mut old_start = match self.rng.below(6) {
+        let roll = match p.line_number_class {
+            1 => self.rng.below(2),
+            2 => 5,
+            _ => self.rng.below(6),
+        };
+        let mut old_start = match roll {
             0 => self.rng.range(9_990, 12_000),
             1 => self.rng.range(99_000, 1_200_000),
             _ => self.rng.range(1, 30),
@@ -612,6 +620,7 @@ pub fn random_params(rng: &mut Rng, pivot: usize) -> GenParams {
         similar_pairs: rng.chance(1, 2),
         no_index_lines: rng.chance(1, 8),
         no_prefix: rng.chance(1, 10),
+        line_number_class: 0,
     }
 }
 
